@@ -130,7 +130,21 @@ func genC05(t *rapid.T) c05Case {
 		}
 	}
 	cs.Overridden = sp.used["kv-collision"] > 0 || sp.used["keyed-duplicate"] > 0 || sp.used["replace"] > 0 || sp.used["wholesale"] > 0
-	baseName := func(k int) string { return fmt.Sprintf("base%d", k) }
+	sameName := map[int]bool{}
+	usedSame := map[string]bool{}
+	for k := 0; k < nbases; k++ {
+		// services of different files may share a name: `web` extending `shared/base.yaml:web`
+		if files[k] != "compose.yaml" && !usedSame[files[k]] && rapid.IntRange(0, 2).Draw(t, "samename") == 0 {
+			sameName[k] = true
+			usedSame[files[k]] = true
+		}
+	}
+	baseName := func(k int) string {
+		if sameName[k] {
+			return name
+		}
+		return fmt.Sprintf("base%d", k)
+	}
 	extendsRef := func(k int) any { // service at position k extends base k-1
 		if files[k] == files[k-1] {
 			if rapid.Bool().Draw(t, "shortextends") {
@@ -198,9 +212,9 @@ func genC05(t *rapid.T) c05Case {
 				s = prefixPaths(s, filepath.Dir(files[k]))
 			}
 			if k > 0 {
-				s["extends"] = map[string]any{"service": baseName(k - 1)}
+				s["extends"] = map[string]any{"service": fmt.Sprintf("base%d", k-1)}
 			}
-			n := baseName(k)
+			n := fmt.Sprintf("base%d", k)
 			if k == nbases {
 				n = name
 			}
@@ -211,7 +225,7 @@ func genC05(t *rapid.T) c05Case {
 	cs.SameFile = emitYAML(same(true), nil)
 	plain := same(false)
 	cs.NBases = nbases
-	sibling := map[string]any{"extends": map[string]any{"service": baseName(nbases - 1)}, "image": "sibling-image", "hostname": "sibling-host",
+	sibling := map[string]any{"extends": map[string]any{"service": fmt.Sprintf("base%d", nbases-1)}, "image": "sibling-image", "hostname": "sibling-host",
 		"cap_add": []any{"SIBLING_CAP"}, "cap_drop": []any{"SIBLING_DROP"}, "dns": []any{"9.9.9.9"}, "environment": map[string]any{"SIB": "1"},
 		"labels": map[string]any{"sib": "yes"}, "command": []any{"sibling"}, "security_opt": []any{"sibling-opt"}, "group_add": []any{"sibgroup"},
 		"ports": []any{map[string]any{"target": 7777}}, "volumes": []any{map[string]any{"type": "volume", "target": "/sibling"}}, "expose": []any{"7778"},
@@ -275,6 +289,12 @@ func c05Check(c *Ctx, cs c05Case) *Failure {
 		r := c05Load(cs.Distributed, "compose.yaml")
 		if r.Panic != nil {
 			return r.Panic
+		}
+		if strings.HasPrefix(cs.Negative, "ok:") {
+			if r.Err != nil {
+				return failf("c05:valid-chain-rejected:"+cs.Negative, "a valid extends chain (%s) was rejected: %v", cs.Negative, r.Err)
+			}
+			return nil
 		}
 		if r.Err == nil {
 			return failf("c05:invalid-chain-accepted:"+cs.Negative, "extends chain with %s loaded without error", cs.Negative)
@@ -413,6 +433,12 @@ func c05Negatives() []c05Case {
 		b.WriteString("  web:\n    extends: s0\n")
 		mk(fmt.Sprintf("cycle-%d", n), memFile{Name: "compose.yaml", Content: b.String()})
 	}
+	// acyclic chains which reuse a service name in another file
+	mk("ok:same-name-across-files", memFile{Name: "compose.yaml", Content: "services:\n  web:\n    extends: {file: shared/base.yaml, service: web}\n"},
+		memFile{Name: "shared/base.yaml", Content: "services:\n  web:\n    extends: common\n  common:\n    image: x\n"})
+	mk("ok:same-name-three-files", memFile{Name: "compose.yaml", Content: "services:\n  queue:\n    extends: {file: sub/deeper/b.yaml, service: base3}\n"},
+		memFile{Name: "sub/deeper/b.yaml", Content: "services:\n  base3:\n    extends: {file: ../base.yaml, service: base2}\n  queue:\n    image: q\n"},
+		memFile{Name: "sub/base.yaml", Content: "services:\n  base2:\n    extends: {file: deeper/b.yaml, service: queue}\n"})
 	mk("cycle-across-files", memFile{Name: "compose.yaml", Content: "services:\n  web:\n    extends: {file: sub/b.yaml, service: b}\n"}, memFile{Name: "sub/b.yaml", Content: "services:\n  b:\n    extends: {file: ../compose.yaml, service: web}\n"})
 	return out
 }
